@@ -164,7 +164,35 @@ def evaluate_probe(case):
     return fails, twin_hits
 
 
+def letter_sweep():
+    """Every ASCII letter, in tag names and attribute names, upper vs lower, under each HTML tree builder."""
+    import string
+    import bs4
+    fails = []
+    n = 0
+    for parser in ('html.parser', 'lxml', 'html5lib'):
+        for ch_ in string.ascii_lowercase:
+            name, attr = f't{ch_}q', f'data-{ch_}x'
+            soup = bs4.BeautifulSoup(f'<div><{name} {attr}="v" id="e"></{name}></div>', parser)
+            el = soup.find(id='e')
+            el.attrs['W' + ch_.upper()] = 'v'          # set through the API: the stored name keeps its case
+            for text in (name.upper(), f'[{attr.upper()}]', f'{name.capitalize()}[{attr.upper()}="v"]', f'[w{ch_}]',
+                         f'[W{ch_.upper()}=v]'):
+                n += 1
+                try:
+                    got = sv.select(text, soup)
+                except Exception as e:  # noqa: BLE001
+                    fails.append(('raises-' + type(e).__name__, f'{text!r}: {e!r:.100}'))
+                    continue
+                if [x.get('id') for x in got] != ['e']:
+                    fails.append(('case-rule-html-letter', f'{text!r} does not match <{name} {attr}="v" W{ch_.upper()}="v"> under {parser}'))
+    return fails, n
+
+
 def replay(case):
+    if 'sweep' in case:
+        fails, _ = letter_sweep()
+        return fails[0] if fails else None
     if 'probe' in case:
         fails, _ = evaluate_probe(case)
     else:
@@ -234,6 +262,12 @@ def shard(ctx):
         for b, d in fails[:3]:
             col.fail(b, case, d)
 
+    if ctx['shard'] == 0:
+        fails, n = letter_sweep()
+        col.count(n)
+        col.classify('letter-sweep')
+        for b, d in fails[:2]:
+            col.fail(b, {'sweep': True}, d)
     ex = common.hyp_run(choose.choices(3072), body, 40000 if tier == 'quick' else 4000000, ctx['hseed'],
                         deadline_ts=ctx['t_end'])
     col.extra['budget_exhausted'] = int(ex)
